@@ -184,10 +184,11 @@ def corrupt(kind, X, rng):
     return f, '\n'.join(lines)
 
 
-FOREIGN = {'dfa': ['epsilon', 'accept', 'reject', 'blank', 'stack_symbols', 'tape_symbols'],
-           'nfa': ['accept', 'reject', 'blank', 'stack_symbols', 'tape_symbols'],
-           'pda': ['accept', 'reject', 'blank', 'tape_symbols'],
-           'tm': ['epsilon', 'stack_symbols']}
+LOOKALIKE = ['Final', 'Initial', 'States', 'Accept', 'Reject', 'Blank', 'Epsilon', 'final_q', 'initial_q', 'states2', 'finalstate', 'initial0', 'input_symbols_x', 'statesman']     # keywords up to case, and words that only begin with a keyword: ordinary state names
+FOREIGN = {'dfa': ['epsilon', 'accept', 'reject', 'blank', 'stack_symbols', 'tape_symbols'] + LOOKALIKE,
+           'nfa': ['accept', 'reject', 'blank', 'stack_symbols', 'tape_symbols'] + LOOKALIKE,
+           'pda': ['accept', 'reject', 'blank', 'tape_symbols'] + LOOKALIKE,
+           'tm': ['epsilon', 'stack_symbols'] + LOOKALIKE}
 
 
 def foreign_keyword_state(kind, X, rng):
@@ -240,7 +241,16 @@ def cases(ctx):
         for i in range(n * K):
             X = {'dfa': lambda: gen.random_dfa(rng, 4), 'nfa': lambda: gen.random_nfa(rng, 4, eps=rng.choice(['_', 'ε', 'e'])),
                  'pda': lambda: gen.random_pda(rng), 'tm': lambda: gen.random_tm(rng)}[kind]()
-            if rng.random() < 0.15:
+            if kind == 'nfa' and rng.random() < 0.1:       # epsilon declared as '_' while 'ε' is an ORDINARY input symbol
+                X = gen.random_nfa(rng, 4, ['a', 'ε'], '_')
+            if kind == 'tm' and rng.random() < 0.15 and X['blank'] == '_' and '□' not in X['Gamma']:
+                # blank declared as '_' while '□' is an ordinary tape symbol
+                extra = [g for g in X['Gamma'] if g not in X['Sigma'] and g != X['blank']]
+                if extra:
+                    g0 = extra[0]
+                    f = lambda x: '□' if x == g0 else x
+                    X = dict(X, Gamma=[f(g) for g in X['Gamma']], delta=[[p, f(a), q, f(b), d] for p, a, q, b, d in X['delta']])
+            if rng.random() < 0.25:
                 X = foreign_keyword_state(kind, X, rng)
             if not usable(kind, X):
                 continue
